@@ -86,7 +86,7 @@ def finish(run, explanation, assumptions, technique, out=print):
     viol, kf = [], []
     for o in uniq:
         (kf if o["key"] in known else viol).append(o)
-    ev_dir = os.path.join(VERIF, "evidence")
+    ev_dir = os.environ.get("PPSA_EVIDENCE_DIR") or os.path.join(VERIF, "evidence")
     rp_dir = os.path.join(ev_dir, "replay")
     os.makedirs(rp_dir, exist_ok=True)
     for fn in os.listdir(rp_dir):
